@@ -113,7 +113,7 @@ def run(rng, tier, model_ok):
             cases = cases[:corpus_n] + rng.sample(cases[corpus_n:], budget)
         bad = vlib.coq_eval_cases(cases, "C07", shard_size=250)
         for i, got in sorted(bad.items()):
-            mismatches.append({"tag": cases[i][0], "input": "".join(chr(c) for c in (cases[i][1] if cases[i][0] == 3 else cases[i][1][3:])), "model": got[:30], "impl": cases[i][2][:30]})
+            mismatches.append({"tag": cases[i][0], "input": vlib.safe_text(cases[i][1] if cases[i][0] == 3 else cases[i][1][3:]), "model": got[:30], "impl": cases[i][2][:30]})
     nontrivial = {s for s in lits if sum([s[0] in "+-", "." in s, "e" in s.lower(), bool(re.match(r"^[+-]?0\d", s))]) >= 2}
     return {
         "evaluations": len(lits) * 3 + len(sweep), "distinct_nontrivial": len(nontrivial),
